@@ -150,6 +150,8 @@ def extShape (opt : List String) : MStmt → Bool
   | .ifNonZero f body => opt.contains f && optBody f body
   | .ifNonZeroArr f body => opt.contains f && optBodyArr f body
   | .ifWordCount _ _ | .subHead _ _ => false
+  | .zeros _ _ => false      -- literal bytes that belong to no declared field (a string terminator): none of the
+                             -- three encoders over the declared field list has a notion of them
   | .int _ _ _ f | .quad _ _ _ f | .u8 _ f | .bytes _ f | .arr _ f | .sub _ f _ | .forSub _ f _
   | .forInt _ _ _ f => !opt.contains f
   | .setFmt _ _ | .assignLen _ _ _ => true
